@@ -1,182 +1,28 @@
 package cert
 
 import (
-	"context"
-
 	"github.com/relab/hotstuff"
 	"github.com/relab/hotstuff/core"
-	"github.com/relab/hotstuff/core/eventloop"
-	"github.com/relab/hotstuff/core/logging"
 	"github.com/relab/hotstuff/internal/proto/clientpb"
-	"github.com/relab/hotstuff/security/blockchain"
-	"github.com/relab/hotstuff/security/crypto"
 )
 
-type vhNoSender struct{}
-
-func (vhNoSender) NewView(hotstuff.ID, hotstuff.SyncInfo) error { return nil }
-func (vhNoSender) Vote(hotstuff.ID, hotstuff.PartialCert) error { return nil }
-func (vhNoSender) Timeout(hotstuff.TimeoutMsg)                  {}
-func (vhNoSender) Propose(*hotstuff.ProposeMsg)                 {}
-func (s vhNoSender) Sub([]hotstuff.ID) (core.Sender, error)     { return s, nil }
-func (vhNoSender) RequestBlock(context.Context, hotstuff.Hash) (*hotstuff.Block, bool) {
-	return nil, false
-}
-
-// vhWorld: n replicas with keys, a blockchain, and an authority for replica `self`.
-type vhWorld struct {
-	n     int
-	ed    bool
-	sym   bool
-	chain *blockchain.Blockchain
-	cfg   *core.RuntimeConfig
-	auth  *Authority
-}
-
-func vhConfig(self int, n int, ed bool, sym bool, opts ...core.RuntimeOption) *core.RuntimeConfig {
-	var pk hotstuff.PrivateKey
-	if ed {
-		pk = crypto.VEdKey(self-1, sym)
-	} else {
-		pk = crypto.VKey(self-1, sym)
-	}
-	cfg := core.NewRuntimeConfig(hotstuff.ID(self), pk, opts...)
-	for i := 1; i <= n; i++ {
-		var pub hotstuff.PublicKey
-		if ed {
-			pub = crypto.VEdKey(i-1, sym).Public()
-		} else {
-			pub = &crypto.VKey(i-1, sym).PublicKey
-		}
-		cfg.AddReplica(&hotstuff.ReplicaInfo{ID: hotstuff.ID(i), PubKey: pub})
-	}
-	return cfg
-}
-
-func vhNewWorld(self, n int, ed bool, cache int, opts ...core.RuntimeOption) *vhWorld {
-	sym := vsymbolic()
-	crypto.VResetKeys()
-	w := &vhWorld{n: n, ed: ed, sym: sym}
-	if cache > 0 {
-		opts = append(opts, core.WithCache(uint(cache)))
-	}
-	w.cfg = vhConfig(self, n, ed, sym, opts...)
-	el := eventloop.New(logging.VNop(), 10)
-	w.chain = blockchain.New(el, logging.VNop(), vhNoSender{})
-	var base crypto.Base
-	if ed {
-		base = crypto.NewEDDSA(w.cfg)
-	} else {
-		base = crypto.NewECDSA(w.cfg)
-	}
-	w.auth = NewAuthority(w.cfg, w.chain, base)
-	return w
-}
-
-// authFor returns an authority of another replica over the same chain (completeness checks).
-func (w *vhWorld) authFor(self int, cache int, opts ...core.RuntimeOption) *Authority {
-	if cache > 0 {
-		opts = append(opts, core.WithCache(uint(cache)))
-	}
-	cfg := vhConfig(self, w.n, w.ed, w.sym, opts...)
-	var base crypto.Base
-	if w.ed {
-		base = crypto.NewEDDSA(cfg)
-	} else {
-		base = crypto.NewECDSA(cfg)
-	}
-	return NewAuthority(cfg, w.chain, base)
-}
-
-// sigEntry: one entry of an adversarial multi-signature.
-type vhEntry struct {
-	claimed hotstuff.ID // label attached to the signature
-	owner   int         // 0-based key that really signed; n = bytes that verify for nobody
-	msg     int         // which message was signed (index into the harness's message table)
-}
-
-func (w *vhWorld) entries(m int, nmsgs int) []vhEntry {
-	es := make([]vhEntry, m)
+func vhEntries(w *VWorld, m int, nmsgs int) []VEntry {
+	es := make([]VEntry, m)
 	for j := range es {
-		es[j].claimed = hotstuff.ID(nondetU32("claimed"))
-		es[j].owner = nondetInt("owner")
-		vassume(es[j].owner >= 0 && es[j].owner <= w.n)
-		es[j].msg = nondetInt("msg")
-		vassume(es[j].msg >= 0 && es[j].msg < nmsgs)
+		es[j].Claimed = hotstuff.ID(nondetU32("claimed"))
+		es[j].Owner = nondetInt("owner")
+		vassume(es[j].Owner >= 0 && es[j].Owner <= w.N)
+		es[j].Msg = nondetInt("msg")
+		vassume(es[j].Msg >= 0 && es[j].Msg < nmsgs)
 	}
 	return es
 }
 
-// multi builds the signature object; msgs[e.msg] selects the signed bytes.
-func (w *vhWorld) multi(es []vhEntry, msgs [][]byte) hotstuff.QuorumSignature {
-	if w.ed {
-		var sigs []*crypto.EDDSASignature
-		for _, e := range es {
-			sigs = append(sigs, crypto.RestoreEDDSASignature(w.signSel(e, msgs), e.claimed))
-		}
-		return crypto.NewMulti(sigs...)
-	}
-	var sigs []*crypto.ECDSASignature
-	for _, e := range es {
-		sigs = append(sigs, crypto.RestoreECDSASignature(w.signSel(e, msgs), e.claimed))
-	}
-	return crypto.NewMulti(sigs...)
-}
-
-// signSel signs the selected message. All candidate messages have the same length, so the
-// selection is bytewise (no fork in the engine); the owner stays symbolic as well.
-func (w *vhWorld) signSel(e vhEntry, msgs [][]byte) []byte {
-	if !w.sym {
-		// natively message lengths may differ (DER-encoded ECDSA signatures vary in length)
-		return crypto.VSignAs(e.owner, w.n, msgs[e.msg], false, w.ed)
-	}
-	sel := make([]byte, len(msgs[0]))
-	for i := range sel {
-		x := msgs[0][i]
-		for k := 1; k < len(msgs); k++ {
-			if e.msg == k {
-				x = msgs[k][i]
-			}
-		}
-		sel[i] = x
-	}
-	return crypto.VSignAs(e.owner, w.n, sel, w.sym, w.ed)
-}
-
-// honest counts the distinct configured replicas s for which some entry is labelled s, was
-// really signed by s's key, and signs message number want.
-func (w *vhWorld) honest(es []vhEntry, want int) int {
-	c := 0
-	for s := 1; s <= w.n; s++ {
-		found := false
-		for _, e := range es {
-			if int(e.claimed) == s && e.owner == s-1 && e.msg == want {
-				found = true
-			}
-		}
-		if found {
-			c++
-		}
-	}
-	return c
-}
-
-func vhRepeated(es []vhEntry) bool {
-	r := false
-	for a := range es {
-		for b := 0; b < a; b++ {
-			if es[a].claimed == es[b].claimed {
-				r = true
-			}
-		}
-	}
-	return r
-}
 
 // C02(a): VerifyQuorumCert soundness. Block B (view vB) and block B2 (view vB2) are stored; the
 // QC names B, B2 or an unknown hash, carries any view label, and m adversarial entries.
 func VH_C02_qc(n int, m int, cache int, ed int) {
-	w := vhNewWorld(1, n, ed == 1, cache)
+	w := VNewWorld(1, n, ed == 1, cache, vsymbolic())
 	vB := hotstuff.View(nondetU64("vB"))
 	vB2 := hotstuff.View(nondetU64("vB2"))
 	vassume(vB >= 1 && vB2 >= 1)
@@ -184,13 +30,13 @@ func VH_C02_qc(n int, m int, cache int, ed int) {
 	gqc := hotstuff.NewQuorumCert(nil, 0, gen.Hash())
 	B := hotstuff.VMakeBlock(hotstuff.VHash(0), gen.Hash(), gqc, &clientpb.Batch{}, vB, 1)
 	B2 := hotstuff.VMakeBlock(hotstuff.VHash(1), gen.Hash(), gqc, &clientpb.Batch{}, vB2, 2)
-	w.chain.Store(B)
-	w.chain.Store(B2)
+	w.Chain.Store(B)
+	w.Chain.Store(B2)
 	label := hotstuff.View(nondetU64("label"))
 	// a third, foreign message of the same length: B's bytes with a different view
 	B3 := hotstuff.VMakeBlock(hotstuff.VHash(2), gen.Hash(), gqc, &clientpb.Batch{}, vB+1, 1)
 	msgs := [][]byte{B.ToBytes(), B2.ToBytes(), B3.ToBytes()}
-	es := w.entries(m, len(msgs))
+	es := vhEntries(w, m, len(msgs))
 	target := nondetInt("target") // 0: B, 1: B2, 2: unknown hash
 	vassume(target >= 0 && target <= 2)
 	var h hotstuff.Hash
@@ -203,23 +49,23 @@ func VH_C02_qc(n int, m int, cache int, ed int) {
 	default:
 		h = hotstuff.VHash(100)
 	}
-	qc := hotstuff.NewQuorumCert(w.multi(es, msgs), label, h)
-	vclass("repeated-claimed-signer", vhRepeated(es))
+	qc := hotstuff.NewQuorumCert(w.Multi(es, msgs), label, h)
+	vclass("repeated-claimed-signer", VRepeated(es))
 	vclass("view-label-differs-from-block-view", target <= 1 && label != tview)
-	err := w.auth.VerifyQuorumCert(qc)
+	err := w.Auth.VerifyQuorumCert(qc)
 	q := hotstuff.QuorumSize(n)
 	vobserve("accepted", vhB(err == nil))
 	if err == nil {
 		vcover("accepted")
 		vassert(target <= 1, "accepted-qc-names-a-known-block")
-		vassert(w.honest(es, target) >= q, "accepted-qc-has-quorum-of-distinct-valid-signatures")
+		vassert(w.Honest(es, target) >= q, "accepted-qc-has-quorum-of-distinct-valid-signatures")
 		vassert(label == tview, "accepted-qc-view-is-the-certified-blocks-view")
-	} else if target <= 1 && w.honest(es, target) >= q && !vhRepeated(es) && label == tview && len(es) == w.honest(es, target) {
+	} else if target <= 1 && w.Honest(es, target) >= q && !VRepeated(es) && label == tview && len(es) == w.Honest(es, target) {
 		// completeness for adversary-free lists is checked in VH_C02_complete
 		vassert(false, "honest-quorum-rejected")
 	}
 	// a second verification (cache warm) gives the same verdict
-	err2 := w.auth.VerifyQuorumCert(qc)
+	err2 := w.Auth.VerifyQuorumCert(qc)
 	vassert((err2 == nil) == (err == nil), "verdict-stable-on-repeat")
 }
 
@@ -232,56 +78,56 @@ func vhB(b bool) uint64 {
 
 // C02(b): VerifyTimeoutCert soundness.
 func VH_C02_tc(n int, m int, cache int, ed int) {
-	w := vhNewWorld(1, n, ed == 1, cache)
+	w := VNewWorld(1, n, ed == 1, cache, vsymbolic())
 	label := hotstuff.View(nondetU64("label"))
 	msgs := [][]byte{label.ToBytes(), (label + 1).ToBytes(), (label ^ 1<<40).ToBytes()}
-	es := w.entries(m, len(msgs))
-	tc := hotstuff.NewTimeoutCert(w.multi(es, msgs), label)
-	vclass("repeated-claimed-signer", vhRepeated(es))
-	err := w.auth.VerifyTimeoutCert(tc)
+	es := vhEntries(w, m, len(msgs))
+	tc := hotstuff.NewTimeoutCert(w.Multi(es, msgs), label)
+	vclass("repeated-claimed-signer", VRepeated(es))
+	err := w.Auth.VerifyTimeoutCert(tc)
 	q := hotstuff.QuorumSize(n)
 	vobserve("accepted", vhB(err == nil))
 	if err == nil {
 		vcover("accepted")
 		if label != 0 {
 			vcover("accepted-nonzero-view")
-			vassert(w.honest(es, 0) >= q, "accepted-tc-has-quorum-of-distinct-valid-signatures")
+			vassert(w.Honest(es, 0) >= q, "accepted-tc-has-quorum-of-distinct-valid-signatures")
 		}
 	}
-	err2 := w.auth.VerifyTimeoutCert(tc)
+	err2 := w.Auth.VerifyTimeoutCert(tc)
 	vassert((err2 == nil) == (err == nil), "verdict-stable-on-repeat")
 }
 
 // C02(d): VerifyPartialCert soundness: accepted only if every entry is a valid signature of
 // its claimed, configured signer over the named stored block.
 func VH_C02_pc(n int, m int, cache int, ed int) {
-	w := vhNewWorld(1, n, ed == 1, cache)
+	w := VNewWorld(1, n, ed == 1, cache, vsymbolic())
 	vB := hotstuff.View(nondetU64("vB"))
 	gen := hotstuff.GetGenesis()
 	gqc := hotstuff.NewQuorumCert(nil, 0, gen.Hash())
 	B := hotstuff.VMakeBlock(hotstuff.VHash(0), gen.Hash(), gqc, &clientpb.Batch{}, vB, 1)
 	B2 := hotstuff.VMakeBlock(hotstuff.VHash(1), gen.Hash(), gqc, &clientpb.Batch{}, vB+1, 1)
-	w.chain.Store(B)
+	w.Chain.Store(B)
 	msgs := [][]byte{B.ToBytes(), B2.ToBytes()}
-	es := w.entries(m, len(msgs))
+	es := vhEntries(w, m, len(msgs))
 	known := nondetBool("names-known-block")
 	h := B.Hash()
 	if !known {
 		h = hotstuff.VHash(100)
 	}
-	pc := hotstuff.NewPartialCert(w.multi(es, msgs), h)
-	err := w.auth.VerifyPartialCert(pc)
+	pc := hotstuff.NewPartialCert(w.Multi(es, msgs), h)
+	err := w.Auth.VerifyPartialCert(pc)
 	vobserve("accepted", vhB(err == nil))
 	if err == nil {
 		vcover("accepted")
 		vassert(known, "accepted-vote-names-a-known-block")
 		vassert(m >= 1, "accepted-vote-has-a-signature")
 		for _, e := range es {
-			vassert(int(e.claimed) >= 1 && int(e.claimed) <= n && e.owner == int(e.claimed)-1 && e.msg == 0, "accepted-vote-entries-all-valid")
+			vassert(int(e.Claimed) >= 1 && int(e.Claimed) <= n && e.Owner == int(e.Claimed)-1 && e.Msg == 0, "accepted-vote-entries-all-valid")
 		}
-		vassert(w.honest(es, 0) == m, "accepted-vote-signers-distinct")
+		vassert(w.Honest(es, 0) == m, "accepted-vote-signers-distinct")
 		if m >= 1 {
-			vassert(pc.Signer() == es[0].claimed, "vote-signer-is-first-entry")
+			vassert(pc.Signer() == es[0].Claimed, "vote-signer-is-first-entry")
 		}
 	}
 }
@@ -292,7 +138,7 @@ func vhRot(start, i, n int) int { return (start+i)%n + 1 }
 // C02(e): completeness. A quorum of honest replicas (any rotation of the membership) signs a
 // block / a view / their timeout messages; the assembled certificates verify at every replica.
 func VH_C02_complete(n int, extra int, cache int, ed int) {
-	w := vhNewWorld(1, n, ed == 1, cache)
+	w := VNewWorld(1, n, ed == 1, cache, vsymbolic())
 	q := hotstuff.QuorumSize(n)
 	cnt := q + extra
 	vassume(cnt <= n && cnt >= 2)
@@ -303,10 +149,10 @@ func VH_C02_complete(n int, extra int, cache int, ed int) {
 	gen := hotstuff.GetGenesis()
 	gqc := hotstuff.NewQuorumCert(nil, 0, gen.Hash())
 	B := hotstuff.VMakeBlock(hotstuff.VHash(0), gen.Hash(), gqc, &clientpb.Batch{}, vB, 1)
-	w.chain.Store(B)
+	w.Chain.Store(B)
 	auths := make([]*Authority, n+1)
 	for s := 1; s <= n; s++ {
-		auths[s] = w.authFor(s, cache, core.WithAggregateQC())
+		auths[s] = w.AuthFor(s, cache, core.WithAggregateQC())
 	}
 	// votes -> QC
 	var pcs []hotstuff.PartialCert
@@ -352,24 +198,11 @@ func VH_C02_complete(n int, extra int, cache int, ed int) {
 	}
 }
 
-// honestQC builds a QC for block b signed by the first cnt replicas; with bad set, the last
-// signature is bytes that verify for nobody (same length, so all variants encode equally long).
-func (w *vhWorld) honestQC(b *hotstuff.Block, cnt int, bad bool) hotstuff.QuorumCert {
-	es := make([]vhEntry, cnt)
-	for i := range es {
-		es[i] = vhEntry{claimed: hotstuff.ID(i + 1), owner: i, msg: 0}
-		if bad && i == cnt-1 {
-			es[i].owner = w.n
-		}
-	}
-	return hotstuff.NewQuorumCert(w.multi(es, [][]byte{b.ToBytes()}), b.View(), b.Hash())
-}
-
 // C02(c): VerifyAggregateQC soundness. r attested QCs (pattern pat picks, per entry, a valid QC
 // for B, a valid QC for B2 or an invalid QC for B), ids by idpat, m adversarial entries in the
 // aggregate signature.
 func VH_C02_agg(n int, r int, m int, pat int, idpat int, ed int) {
-	w := vhNewWorld(1, n, ed == 1, 0, core.WithAggregateQC())
+	w := VNewWorld(1, n, ed == 1, 0, vsymbolic(), core.WithAggregateQC())
 	q := hotstuff.QuorumSize(n)
 	vB := hotstuff.View(nondetU64("vB"))
 	vB2 := hotstuff.View(nondetU64("vB2"))
@@ -378,9 +211,9 @@ func VH_C02_agg(n int, r int, m int, pat int, idpat int, ed int) {
 	gqc := hotstuff.NewQuorumCert(nil, 0, gen.Hash())
 	B := hotstuff.VMakeBlock(hotstuff.VHash(0), gen.Hash(), gqc, &clientpb.Batch{}, vB, 1)
 	B2 := hotstuff.VMakeBlock(hotstuff.VHash(1), gen.Hash(), gqc, &clientpb.Batch{}, vB2, 2)
-	w.chain.Store(B)
-	w.chain.Store(B2)
-	variants := []hotstuff.QuorumCert{w.honestQC(B, q, false), w.honestQC(B2, q, false), w.honestQC(B, q, true)}
+	w.Chain.Store(B)
+	w.Chain.Store(B2)
+	variants := []hotstuff.QuorumCert{w.HonestQC(B, q, false), w.HonestQC(B2, q, false), w.HonestQC(B, q, true)}
 	aggView := hotstuff.View(nondetU64("aggview"))
 	ids := make([]hotstuff.ID, r)
 	kinds := make([]int, r)
@@ -406,9 +239,9 @@ func VH_C02_agg(n int, r int, m int, pat int, idpat int, ed int) {
 	}
 	// a foreign message: entry 0's message for another view
 	msgs = append(msgs, hotstuff.TimeoutMsg{ID: ids[0], View: aggView + 1, SyncInfo: hotstuff.NewSyncInfoWith(variants[kinds[0]])}.ToBytes())
-	es := w.entries(m, len(msgs))
-	agg := hotstuff.NewAggregateQC(qcs, w.multi(es, msgs), aggView)
-	high, err := w.auth.VerifyAggregateQC(agg)
+	es := vhEntries(w, m, len(msgs))
+	agg := hotstuff.NewAggregateQC(qcs, w.Multi(es, msgs), aggView)
+	high, err := w.Auth.VerifyAggregateQC(agg)
 	vobserve("accepted", vhB(err == nil))
 	if err != nil {
 		return
@@ -420,7 +253,7 @@ func VH_C02_agg(n int, r int, m int, pat int, idpat int, ed int) {
 		ok := false
 		for _, e := range es {
 			for i := 0; i < r; i++ {
-				if int(ids[i]) == s && int(e.claimed) == s && e.owner == s-1 && e.msg == i {
+				if int(ids[i]) == s && int(e.Claimed) == s && e.Owner == s-1 && e.Msg == i {
 					ok = true
 				}
 			}
@@ -438,7 +271,7 @@ func VH_C02_agg(n int, r int, m int, pat int, idpat int, ed int) {
 		// attested: entry i's timeout message carries a valid signature of replica ids[i]
 		att := false
 		for _, e := range es {
-			if e.claimed == ids[i] && int(ids[i]) >= 1 && int(ids[i]) <= n && e.owner == int(ids[i])-1 && e.msg == i {
+			if e.Claimed == ids[i] && int(ids[i]) >= 1 && int(ids[i]) <= n && e.Owner == int(ids[i])-1 && e.Msg == i {
 				att = true
 			}
 		}
@@ -461,5 +294,5 @@ func VH_C02_agg(n int, r int, m int, pat int, idpat int, ed int) {
 	vassert(anyValid, "accepted-aggqc-attests-a-valid-qc")
 	vassert(isAttested, "high-qc-is-a-valid-attested-qc")
 	vassert(high.View() == best, "high-qc-has-the-highest-view-among-valid-attested")
-	vassert(w.auth.VerifyQuorumCert(high) == nil, "high-qc-verifies")
+	vassert(w.Auth.VerifyQuorumCert(high) == nil, "high-qc-verifies")
 }
